@@ -535,7 +535,11 @@ impl RegexInstructions for Regex {
     }
 
     fn byte_from(l: impl IntoIterator<Item = u8>) -> Self {
-        RegexInternal::Single(l.into_iter().map(u8::into).collect()).into()
+        // (a byte given several times counts once)
+        RegexInternal::Single(
+            l.into_iter().map(u8::into).collect::<FxHashSet<Letter>>().into_iter().collect(),
+        )
+        .into()
     }
 
     fn cat<S: IntoIterator<Item = Self>>(l: S) -> Self {
